@@ -44,8 +44,8 @@ theorem resolve_resolvable (q : Quirks) (env : Env) (c : Cls) (ser : Bool)
   have ht := fullName_truthy c
   simp only [resolve, ht, Bool.not_true, Bool.false_eq_true, if_false, rsplit_fullName c hdot, himp]
   split at hattr
-  · rename_i c' ser' reg' hk
-    simp only [Bool.and_eq_true, beq_iff_eq, Bool.or_eq_true] at hattr
+  · rename_i c' ser' reg' impl' hk
+    simp only [Bool.and_eq_true, beq_iff_eq] at hattr
     obtain ⟨⟨hc, hs⟩, hr⟩ := hattr
     subst hc hs
     rw [hk]
@@ -152,9 +152,9 @@ def exU : Cls := ⟨"k2", "uuid", "UUID"⟩
 def exEnv : Env where
   importModule := fun m => if m = "m.sub" ∨ m = "uuid" then .ok else .notFound
   getattr := fun m n =>
-    if m = "m.sub" ∧ n = "A" then .cls exA true false
-    else if m = "m.sub" ∧ n = "B" then .cls exB true false
-    else if m = "uuid" ∧ n = "UUID" then .cls exU false true
+    if m = "m.sub" ∧ n = "A" then .cls exA true false true
+    else if m = "m.sub" ∧ n = "B" then .cls exB true false true
+    else if m = "uuid" ∧ n = "UUID" then .cls exU false true true
     else .missing
 def exVal : PyVal :=
   .obj exB [("x", .list [.obj exA [], .list [], .ext exU "p", .int 5]), ("y", .none)]
@@ -165,5 +165,7 @@ example : valueTags exVal = [some (.str "m.sub.B"), some (.str "m.sub.A"), some 
   simp [valueTags, valueTagsFields, valueTagsList, exVal, exA, exB, exU, Cls.fullName]
 example : wf exEnv (.obj ⟨"k9", "m.sub", "Local"⟩ []) = false := by decide
 example : wf exEnv (.obj exA [(tagKey, .none)]) = false := by decide
+/-- a serializer class that does not implement `_from_json` (abstract) is not well-formed -/
+example : wf { exEnv with getattr := fun _ _ => .cls exA true false false } (.obj exA []) = false := by decide
 
 end KrroodVerif.Json
